@@ -125,7 +125,7 @@ def real_outcome(doc, f, t, rng_op):
     return st      # valueError / internal / hang
 
 
-ANSWER = {"deleteGuards", "deleteApplies", "deleteRangeApplies", "trivialApplies"}
+ANSWER = {"deleteGuards", "deleteApplies", "deleteRangeApplies", "trivialApplies", "directApplies"}
 
 
 def tie_delete_applies(ctx, info, guards, doc, f, t, name, reqs, metas):
@@ -199,6 +199,116 @@ def check_trivial_applies(ctx, replay, out):
             [k for k in ("textAbsorb", "textStableC") if not guards.get(k)] + [k for k in sorted(h) if not h[k]])[:60])
 
 
+def frag_units(text):
+    u = text.encode("utf-16-le", "surrogatepass")
+    return [u[i] | (u[i + 1] << 8) for i in range(0, len(u), 2)]
+
+
+def frag_high_closed(frag):
+    """`highClosedKids` on a Fragment"""
+    for i in range(frag.child_count):
+        n = frag.child(i)
+        if n.is_text:
+            units = frag_units(n.text)
+            for k, c in enumerate(units):
+                if 0xD800 <= c < 0xDC00 and not (k + 1 < len(units) and 0xDC00 <= units[k + 1] < 0xE000):
+                    return False
+        elif not frag_high_closed(n.content):
+            return False
+    return True
+
+
+def frag_norm(frag):
+    """`fnorm` on a Fragment: no empty text node, no two adjacent text nodes with the same marks, at every level"""
+    prev = None
+    for i in range(frag.child_count):
+        n = frag.child(i)
+        if n.is_text:
+            if not n.text:
+                return False
+            if prev is not None and prev.is_text and prev.same_markup(n):
+                return False
+        elif not frag_norm(n.content):
+            return False
+        prev = n
+    return True
+
+
+def frag_valid(frag):
+    """`Slice.closedValid`: every node of the content passes `Node.check`"""
+    for i in range(frag.child_count):
+        st, _ = outcome(frag.child(i).check)
+        if st != "ok":
+            return False
+    return True
+
+
+def direct_fit(doc, f, sl):
+    """`directFitB` (lean/PM/DeleteGuards.lean) on the real objects"""
+    if sl.open_start or sl.open_end or f < 0 or f > doc.content.size:
+        return False
+    r = doc.resolve(f)
+    st, m = outcome(lambda: r.parent.content_match_at(r.index_after(r.depth)))
+    if st != "ok":
+        return False
+    for i in range(sl.content.child_count):
+        m = m.match_type(sl.content.child(i).type)
+        if not m:
+            return False
+    return True
+
+
+COARSE = {"applies": "applies", "none": "none", "refused": "refused"}
+
+
+def tie_direct_applies(ctx, info, guards, doc, f, t, sl, reqs, metas):
+    """`replace_applies_direct` / `insertInline_never_raises_direct_partial` (lean/Props/C11.lean) for one request
+    `replace(f, t, slice)` with a closed slice: the hypotheses exactly, the class of the answer of the whole operation
+    (`Transform.replace`: `replace_step`, then `Step.apply`) exactly, and the statements relationally"""
+    if sl.open_start or sl.open_end or f > t or t > doc.content.size:
+        return
+    tr = Transform(doc)
+    st, _ = outcome(lambda: tr.replace(f, t, sl))
+    real = ("applies" if tr.steps else "none") if st == "ok" else ("refused" if st == "failed" else "other")
+    leaves = all(sl.content.child(i).is_leaf for i in range(sl.content.child_count))
+    exp = {"hyp": {"doc": {"valid": True, "norm": True, "attrs": True, "highClosed": high_closed(doc),
+                           "alignedFrom": pair_aligned(doc, f), "alignedTo": pair_aligned(doc, t),
+                           "topTextblock": bool(doc.type.is_textblock), "inRange": True, "ordered": True},
+                   "direct": direct_fit(doc, f, sl), "sliceValid": frag_valid(sl.content), "sliceNorm": frag_norm(sl.content),
+                   "sliceHighClosed": frag_high_closed(sl.content), "inlineLeaves": leaves},
+           "model": real}
+    replay = {"schema": info.name, "doc": doc.to_json(), "from": f, "to": t, "slice": sl.to_json(), "real": real,
+              "guards": guards, "op": "direct"}
+    reqs.append({"op": "directApplies", "s": info.lean_id, "doc": info.node(doc), "from": f, "to": t, "slice": info.slice(sl)})
+    metas.append(("directApplies", replay, exp))
+
+
+def check_direct_applies(ctx, replay, out):
+    g = out.get("ok")
+    if not isinstance(g, dict):
+        return
+    h = g.get("hyp", {})
+    d = h.get("doc", {})
+    guards = replay.get("guards") or {}
+    need = ("det", "fillers", "leafOk", "closable", "textStableC", "textAbsorb", "joinCompat", "reopenOK", "inlineUniform")
+    hyps = all(d.get(k) for k in ("valid", "norm", "attrs", "highClosed", "alignedFrom", "alignedTo", "ordered")) and \
+        all(h.get(k) for k in ("direct", "sliceValid", "sliceNorm", "sliceHighClosed"))
+    if guards and all(guards.get(k) for k in need) and hyps:
+        model = g.get("model")
+        ctx.count("replace_applies_direct: hypotheses hold (%s%s)" % (model, ", inline leaves" if h.get("inlineLeaves") else ""))
+        # the emitted step applies: no refusal, in the model and in the code
+        if model in ("refused", "valueError", "internal") or replay["real"] == "refused":
+            ctx.mismatch("directApplies:hypotheses-true-but-refused", replay, replay["real"], g)
+        # typing / inline leaves, the top node no textblock: the operation as a whole returns
+        if h.get("inlineLeaves") and not d.get("topTextblock") and \
+                (model not in ("applies", "none") or replay["real"] not in ("applies", "none")):
+            ctx.mismatch("directApplies:inline-leaves-but-raises", replay, replay["real"], g)
+    else:
+        bad = [k for k in need if not guards.get(k)] + [k for k in sorted(d) if k != "topTextblock" and not d[k]] + \
+            [k for k in ("direct", "sliceValid", "sliceNorm", "sliceHighClosed") if not h.get(k)]
+        ctx.count("replace_applies_direct: hypotheses fail (%s)" % ",".join(bad)[:60])
+
+
 def tie_join_counterexample(ctx, reqs, metas):
     """`joinCompat_needed` (lean/Props/C11.lean) on the real code: schema doc "(x | y)+", x "a b*", y "b+";
     `doc(x(a), y(b, b))`, `delete(2, 5)` raises TransformError("Cannot join y onto x"); the guard is false there"""
@@ -227,4 +337,6 @@ def answer(op, out):
         return out
     if op == "deleteGuards":
         return {k: o.get(k) for k in ("joinCompat", "reopenOK", "textAbsorb", "inlineUniform")}
+    if op == "directApplies":
+        return {"hyp": o.get("hyp"), "model": COARSE.get(o.get("model"), "other")}
     return {"hyp": o.get("hyp"), "model": o.get("model")}
